@@ -82,8 +82,8 @@ def judge(ctx, op, steps, m, inp, what):
             w[0], w[2] = r, (steps, m.lines)
         if steps <= 3 and m.lines > w[1]:
             w[1] = m.lines
-    if m.aborted == 'time' or m.seconds > WALL_CAP:
-        ctx.fail(f'{op}:time', f'{what}: call did not finish within {WALL_CAP}s (lines so far {m.lines}, model steps {steps})', inp,
+    if m.aborted == 'time':
+        ctx.fail(f'{op}:time', f'{what}: call did not finish within {WALL_CAP}s + 25us/line (lines so far {m.lines}, model steps {steps})', inp,
                  f'{m.seconds:.2f}s, {m.lines} lines', f'<= {WALL_CAP}s')
         return False
     if m.aborted == 'lines' or m.lines > lim:
